@@ -24,7 +24,7 @@ class C03Stream(M.MatStream):
         # (2) history-free: the final target equals the target of a fresh instance fed only the
         #     live proposals (latest per actor, not expired), in two different arrival orders
         s = M.cur_sys(case)
-        live = list(M.live_proposals(case["events"]).values())
+        live = list(M.live_proposals(case["events"], case.get("max_age8", 480)).values())
         final = next((t for e, t in zip(reversed(case["events"]), reversed(obs["targets"])) if e["t"] != "b"), None)
         last_is_call = bool(case["events"]) and case["events"][-1]["t"] != "b"
         # domain: the property quantifies over existing system bounds; while a group has neither
@@ -33,7 +33,7 @@ class C03Stream(M.MatStream):
         in_domain = all(not (x["incl"] is None and x["excl"] is None) for x in systems)
         if final is not None and last_is_call and live and in_domain:
             for order in (live, list(reversed(live))):
-                fresh = M.run_history({"sys": s, "events": order})
+                fresh = M.run_history({"sys": s, "events": order, "max_age8": case.get("max_age8", 480)})
                 if fresh["targets"][-1] != final:
                     out.append({"what": f"history: target {final} differs from {fresh['targets'][-1]} computed from the live proposals alone", "finding": None})
                     break
